@@ -717,3 +717,7 @@ for _p in ("C14", "C15"):
 _thor("C14", ["smpl_extract.util.constructs:SafeListConstruct._parse[count=4]"])
 _thor("C01", ["smpl_extract.akai.volume:VolumesAdapter._decode_element[entries=4]"])
 _thor("C10", [f"smpl_extract.structural:Traversable.get_info[children={n}]" for n in (4, 5)])
+
+# C13 (F16): a reversed view always has a known, non-negative length
+SPECS["C13"]["contracts"] += ["smpl_extract.util.stream:StreamReversed.__init__"]
+SPECS["C13"]["level_text"] += "; StreamReversed.__init__ gives a reversed view a non-negative length whatever size it is handed (F16: a negative size made every read succeed forever)"
